@@ -18,8 +18,8 @@ func init() {
 		ID: "C01", Section: "3 C01",
 		Technique: "who-may-write / who-may-call census of the credit state, effect census (no rand/time/map-order) on the smooth path, guard + value-flow rules on the credit updates in smoothBalance",
 		Meta: core.Meta{
-			Level: "other",
-			Explanation: "Decides the structural preconditions of exact shares, not the arithmetic: (a) determinism — no function reachable from bal_slb.smoothBalance calls math/rand or time.Now, ranges over a map or starts a goroutine; (b) credit ownership — BackendRR.current is written only by Init, UpdateWeight, BackendList.ResetWeight, initSlowStart, smoothBalance and simpleBalance, each of those is called only from its reviewed callers (in particular the credit reset ResetWeight/initWeight is reachable only from simpleBalance, never from a reload), the slow-start target weightSS.final is written only by BackendRR.Init, and BalanceRR.Update touches surviving elements only through UpdateWeight/MatchAddrPort/Release; (c) in smoothBalance every in-loop credit update is `current += weight` of the same element under the eligibility guard (Avail && weight > 0), the chosen element is the only one debited after the loop, the debit is the sum accumulated over exactly the eligible elements, and the choice compares credits with a strict `>`. Not covered: the numerical invariant (sum of credits = W, exact counts per window), slow-start ramp arithmetic.",
+			Level:       "other",
+			Explanation: "Decides the structural preconditions of exact shares, not the arithmetic: (a) determinism — no function reachable from bal_slb.smoothBalance calls math/rand or time.Now, ranges over a map or starts a goroutine; (b) credit ownership — BackendRR.current is written only by Init, UpdateWeight, BackendList.ResetWeight, initSlowStart, smoothBalance and simpleBalance, each of those is called only from its reviewed callers (in particular the credit reset ResetWeight/initWeight is reachable only from simpleBalance, never from a reload), the slow-start target weightSS.final is written only by BackendRR.Init, and BalanceRR.Update touches surviving elements only through UpdateWeight/MatchAddrPort/Release; (c) in smoothBalance every in-loop credit update is `current += weight` of the same element under the eligibility guard (Avail && weight > 0), the chosen element is the only one debited after the loop, the debit is the sum accumulated over exactly the eligible elements, and the choice compares credits with a strict `>`. Not covered: the numerical invariant (sum of credits = W, exact counts per window), slow-start ramp arithmetic. Robustness: every clause is decided on regions (an anchor function plus its private helpers and closures): a store or call found in a helper all of whose call sites lie inside a reviewed writer/caller counts as that writer's/caller's; eligibility guards are read in either comparison spelling and polarity, through named booleans and through boolean predicate helpers (parameters bound to the call's arguments); sums, the chosen element and the key operands are followed through helper parameters and results; variables are identified by role (running best = a *BackendRR phi that takes list elements, debit subtrahend = what flows into the subtraction, UpdateWeight's operands = its receiver and parameter by position), never by name. No longer decided after this generalisation: that there is exactly one update site and one debit site (now: at least one of each, every one conforming, no two debits on one path); a helper shared between a reviewed writer and any other function is attributed to neither and is reported.",
 			RuleText:    "obligations = each store to BackendRR.current / weightSS.final, each caller of a credit writer, each call on a surviving element in Update, each effect reachable from smoothBalance, the update/debit sites of smoothBalance",
 		},
 		Run: runC01,
@@ -33,11 +33,20 @@ func init() {
 			{Name: "repick-same-subcluster", File: "bfe_balance/bal_gslb/bal_gslb.go", Old: "		backend, err = current.balance(balAlgor, hashKey)\n		if err == nil {\n			return backend, nil\n		} else {", New: "		backend, err = current.balance(balAlgor, hashKey)\n		if err == nil && req.RetryTime > 0 && backend == req.Trans.Backend {\n			backend, err = current.balance(balAlgor, hashKey)\n		}\n		if err == nil {\n			return backend, nil\n		} else {", Expect: "single-pick"},
 			{Name: "survivor-reinit", File: "bfe_balance/bal_slb/bal_rr.go", Old: "			backendRR.UpdateWeight(*bkConf.Weight)\n", New: "			backendRR.Init(brr.Name, bkConf)\n", Expect: "survivor-calls"},
 			{Name: "debit-weight-sum", File: "bfe_balance/bal_slb/bal_rr.go", Old: "		total += backendRR.current\n", New: "		total += backendRR.weight\n		if backendRR.current < 0 {\n			total -= backendRR.weight\n		}\n", Expect: "debit"},
+			// behaviour-preserving refactorings: the verdict must not change
+			{Name: "silent-eligibility-predicate-helper", File: "bfe_balance/bal_slb/bal_rr.go", Old: "func smoothBalance(backs BackendList) (*backend.BfeBackend, error) {\n\tvar best *BackendRR\n\ttotal, max := 0, 0\n\n\tfor _, backendRR := range backs {\n\t\tbackend := backendRR.backend\n\t\t// skip ineligible backend\n\t\tif !backend.Avail() || backendRR.weight <= 0 {\n\t\t\tcontinue\n\t\t}\n", New: "func rrTakesPart(item *BackendRR) bool {\n\treturn item.backend.Avail() && 0 < item.weight\n}\n\nfunc smoothBalance(backs BackendList) (*backend.BfeBackend, error) {\n\tvar best *BackendRR\n\ttotal, max := 0, 0\n\n\tfor _, backendRR := range backs {\n\t\t// skip ineligible backend\n\t\tif !rrTakesPart(backendRR) {\n\t\t\tcontinue\n\t\t}\n", Silent: true},
+			{Name: "silent-debit-in-helper", File: "bfe_balance/bal_slb/bal_rr.go", Old: "\t// update current weight for chosen backend\n\tbest.current -= total\n\n\treturn best.backend, nil\n}\n", New: "\t// update current weight for chosen backend\n\trrDebit(best, total)\n\n\treturn best.backend, nil\n}\n\nfunc rrDebit(chosen *BackendRR, sum int) {\n\tchosen.current -= sum\n}\n", Silent: true},
+			{Name: "silent-mirrored-choice", File: "bfe_balance/bal_slb/bal_rr.go", Old: "\t\tif best == nil || backendRR.current > max {", New: "\t\tif nil == best || max < backendRR.current {", Silent: true},
+			{Name: "silent-update-range-loop", File: "bfe_balance/bal_slb/bal_rr.go", Old: "\tfor index := 0; index < len(brr.backends); index++ {\n\t\tbackendRR := brr.backends[index]\n", New: "\tfor _, backendRR := range brr.backends {\n", Silent: true},
+			{Name: "silent-updateweight-renamed-store-helper", File: "bfe_balance/bal_slb/backend_rr.go", Old: "func (backRR *BackendRR) UpdateWeight(weight int) {\n\tbackRR.weight = weight * 100\n\n\t// if weight > 0, don't touch backRR.current\n\tif weight <= 0 {\n\t\tbackRR.current = 0\n\t}\n}", New: "func (backRR *BackendRR) storeWeight(scaled int) {\n\tbackRR.weight = scaled\n}\n\nfunc (backRR *BackendRR) UpdateWeight(newWeight int) {\n\tscaled := 100 * newWeight\n\tbackRR.storeWeight(scaled)\n\n\t// if newWeight > 0, don't touch backRR.current\n\tif newWeight <= 0 {\n\t\tbackRR.current = 0\n\t}\n}", Silent: true},
+			{Name: "silent-cross-pick-helper", File: "bfe_balance/bal_gslb/bal_gslb.go", Old: "\tbackend, err = current.balance(balAlgor, hashKey)\n\tif err == nil {\n\t\treturn backend, nil\n\t}\n\n\t// fail to get backend from current sub-cluster\n\tstate.ErrBkNoBackend.Inc(1)\n\treq.ErrCode = bfe_basic.ErrBkNoBackend\n\treq.ErrMsg = fmt.Sprintf(\"cluster[%s], sub[%s], err[%s]\", bal.name, current.Name, err.Error())\n\tlog.Logger.Info(\"gslb.Balance():no backend(cross cluster):cluster[%s], sub[%s], err[%s]\",\n\t\tbal.name, current.Name, err.Error())\n\n\treturn backend, bfe_basic.ErrBkCrossRetryBalance\n}\n", New: "\tbackend, err = crossPick(current, balAlgor, hashKey)\n\tif err == nil {\n\t\treturn backend, nil\n\t}\n\n\t// fail to get backend from current sub-cluster\n\tstate.ErrBkNoBackend.Inc(1)\n\treq.ErrCode = bfe_basic.ErrBkNoBackend\n\treq.ErrMsg = fmt.Sprintf(\"cluster[%s], sub[%s], err[%s]\", bal.name, current.Name, err.Error())\n\tlog.Logger.Info(\"gslb.Balance():no backend(cross cluster):cluster[%s], sub[%s], err[%s]\",\n\t\tbal.name, current.Name, err.Error())\n\n\treturn backend, bfe_basic.ErrBkCrossRetryBalance\n}\n\n// crossPick balances inside the sub cluster chosen for the cross retry.\nfunc crossPick(target *SubCluster, algor int, key []byte) (*bal_backend.BfeBackend, error) {\n\treturn target.balance(algor, key)\n}\n", Silent: true},
+			{Name: "silent-smooth-logging-defensive", File: "bfe_balance/bal_slb/bal_rr.go", Old: "\tif best == nil {\n\t\tif bfe_debug.DebugBal {\n\t\t\tlog.Logger.Debug(\"rr_bal:reset backend weight\")\n\t\t}\n\t\treturn nil, fmt.Errorf(\"rr_bal:all backend is down\")\n\t}\n\n\t// update current weight for chosen backend\n", New: "\tif best == nil {\n\t\tif bfe_debug.DebugBal {\n\t\t\tlog.Logger.Debug(\"rr_bal:reset backend weight\")\n\t\t}\n\t\treturn nil, fmt.Errorf(\"rr_bal:all backend is down\")\n\t}\n\n\t// defensive: credits of eligible backends always sum up to a positive value\n\tif total < 0 {\n\t\tif bfe_debug.DebugBal {\n\t\t\tlog.Logger.Debug(\"rr_bal:negative credit sum[%d], chosen[%s]\", total, best.backend.Name)\n\t\t}\n\t}\n\n\t// update current weight for chosen backend\n", Silent: true},
 		},
 	})
 }
 
 func runC01(c *core.Ctx) {
+	defer balAcquire(c.P)()
 	const slb = "bfe_balance/bal_slb"
 	if c.P.Pkg(slb) == nil {
 		c.Missing(slb)
@@ -82,30 +91,38 @@ func runC01(c *core.Ctx) {
 		return
 	}
 	writers := map[string][]string{ // writer -> allowed callers
-		slb + ".BackendRR.Init":           {slb + ".BalanceRR.Init", slb + ".BalanceRR.Update"},
-		slb + ".BackendRR.UpdateWeight":   {slb + ".BalanceRR.Update"},
-		slb + ".BackendList.ResetWeight":  {slb + ".BalanceRR.initWeight"},
-		slb + ".BalanceRR.initWeight":     {slb + ".BalanceRR.simpleBalance"},
-		slb + ".BackendRR.initSlowStart":  {slb + ".BalanceRR.checkSlowStart"},
-		slb + ".smoothBalance":            {slb + ".BalanceRR.smoothBalance", slb + ".BalanceRR.leastConnsSmoothBalance"},
-		slb + ".BalanceRR.simpleBalance":  {slb + ".BalanceRR.Balance"},
+		slb + ".BackendRR.Init":          {slb + ".BalanceRR.Init", slb + ".BalanceRR.Update"},
+		slb + ".BackendRR.UpdateWeight":  {slb + ".BalanceRR.Update"},
+		slb + ".BackendList.ResetWeight": {slb + ".BalanceRR.initWeight"},
+		slb + ".BalanceRR.initWeight":    {slb + ".BalanceRR.simpleBalance"},
+		slb + ".BackendRR.initSlowStart": {slb + ".BalanceRR.checkSlowStart"},
+		slb + ".smoothBalance":           {slb + ".BalanceRR.smoothBalance", slb + ".BalanceRR.leastConnsSmoothBalance"},
+		slb + ".BalanceRR.simpleBalance": {slb + ".BalanceRR.Balance"},
 	}
-	all := c.P.SrcFuncs("")
-	for _, st := range core.FieldStores(all, cur) {
-		k := core.FuncKey(st.Fn)
-		_, allowed := writers[k]
-		c.Check("credit-writers", k, st.Store.Pos(), allowed, "BackendRR.current (the smooth-WRR credit) is written outside the reviewed writers")
-	}
-	c.Min("credit-writers", 6)
+	fnOf := func(key string) *ssa.Function { return c.P.Func(slb, strings.TrimPrefix(key, slb+".")) }
 	var wk []string
+	var writerFns []*ssa.Function
 	for w := range writers {
 		wk = append(wk, w)
 	}
 	sort.Strings(wk)
 	for _, w := range wk {
+		writerFns = append(writerFns, fnOf(w))
+	}
+	all := c.P.SrcFuncs("")
+	// a store in a private helper of a reviewed writer (a function all of whose call sites lie in that
+	// writer's region) is a store of that writer
+	for _, st := range core.FieldStores(all, cur) {
+		k := core.FuncKey(st.Fn)
+		c.Check("credit-writers", k, st.Store.Pos(), balInAnyRegion(c.P, st.Fn, writerFns) != nil, "BackendRR.current (the smooth-WRR credit) is written outside the reviewed writers (and their private helpers)")
+	}
+	c.Min("credit-writers", 6)
+	for _, w := range wk {
 		allowed := map[string]bool{}
+		var allowedFns []*ssa.Function
 		for _, a := range writers[w] {
 			allowed[a] = true
+			allowedFns = append(allowedFns, fnOf(a))
 		}
 		n := 0
 		for _, f := range all {
@@ -113,8 +130,9 @@ func runC01(c *core.Ctx) {
 				continue
 			}
 			n++
-			c.Check("credit-callers", w+"<-"+core.FuncKey(f), f.Pos(), allowed[core.FuncKey(f)],
-				core.FuncKey(f)+" calls "+w+", which rewrites smooth-WRR credits; only "+strings.Join(writers[w], ", ")+" may (a reload or any other event that resets credits mid-period breaks the exact shares)")
+			okCaller := allowed[core.FuncKey(f)] || balInAnyRegion(c.P, f, allowedFns) != nil
+			c.Check("credit-callers", w+"<-"+core.FuncKey(f), f.Pos(), okCaller,
+				core.FuncKey(f)+" calls "+w+", which rewrites smooth-WRR credits; only "+strings.Join(writers[w], ", ")+" (and their private helpers) may (a reload or any other event that resets credits mid-period breaks the exact shares)")
 		}
 		if n == 0 && w != slb+".BalanceRR.simpleBalance" {
 			c.Check("credit-callers", w+"<-none", token.NoPos, false, w+" has no static caller any more")
@@ -123,9 +141,10 @@ func runC01(c *core.Ctx) {
 	c.Min("credit-callers", 7)
 	// weightSS.final
 	if wss, ok := c.P.Obj(slb, "WeightSS.final").(*types.Var); ok {
+		initFn := c.P.Func(slb, "BackendRR.Init")
 		for _, st := range core.FieldStores(all, wss) {
 			k := core.FuncKey(st.Fn)
-			c.Check("final-writers", k, st.Store.Pos(), k == slb+".BackendRR.Init", "the slow-start target weight (weightSS.final) is written outside BackendRR.Init; a restart would ramp towards a value other than the configured weight")
+			c.Check("final-writers", k, st.Store.Pos(), initFn != nil && balInRegion(c.P, initFn, st.Fn), "the slow-start target weight (weightSS.final) is written outside BackendRR.Init; a restart would ramp towards a value other than the configured weight")
 		}
 		c.Min("final-writers", 1)
 	} else {
@@ -136,16 +155,22 @@ func runC01(c *core.Ctx) {
 		c.Missing(slb + ".BalanceRR.Update")
 	} else {
 		c.Analysed(core.FuncKey(up))
+		bf, _ := c.P.Obj(slb, "BalanceRR.backends").(*types.Var)
 		okCalls := map[string]bool{slb + ".BackendRR.UpdateWeight": true, slb + ".BackendRR.MatchAddrPort": true, slb + ".BackendRR.Release": true}
 		n := 0
-		for _, ci := range core.AllCalls(up) {
+		for _, in := range balRegionInstrs(c.P, up) {
+			ci, isCall := in.(ssa.CallInstruction)
+			if !isCall {
+				continue
+			}
 			cc := ci.Common()
 			sc := cc.StaticCallee()
 			if sc == nil || sc.Signature.Recv() == nil || !strings.HasSuffix(core.TypeStr(sc.Signature.Recv().Type()), "bal_slb.BackendRR") {
 				continue
 			}
-			old := strings.Contains(core.Render(cc.Args[0]), "brr.backends[")
-			if !old {
+			// the receiver is an element of the published list brr.backends (possibly handed to a private helper)
+			list, _ := balElemOfList(balUp(c.P, cc.Args[0]))
+			if list == nil || bf == nil || balLoadOfField(balUp(c.P, list), bf) == nil {
 				continue
 			}
 			n++
@@ -161,14 +186,25 @@ func runC01(c *core.Ctx) {
 		c.Missing(slb + ".BackendRR.UpdateWeight")
 	} else {
 		c.Analysed(core.FuncKey(uw))
-		bad := core.MustPass(uw, nil, func(x ssa.Instruction) bool {
+		wf, _ := c.P.Obj(slb, "BackendRR.weight").(*types.Var)
+		// the store `recv.weight = weight * 100` (operands identified as UpdateWeight's receiver and
+		// parameter, also when the store sits in a private helper they are handed to)
+		install := func(x ssa.Instruction) bool {
 			st, ok := x.(*ssa.Store)
-			if !ok || core.Render(st.Addr) != "backRR.weight" {
+			if !ok {
 				return false
 			}
-			b, ok := st.Val.(*ssa.BinOp)
-			return ok && b.Op == token.MUL && core.Render(b.X) == "weight" && core.Render(b.Y) == "100"
-		})
+			fa, ok := st.Addr.(*ssa.FieldAddr)
+			if !ok || wf == nil || core.FieldObj(fa.X, fa.Field) != wf || !balIsParam(c.P, fa.X, uw, 0) {
+				return false
+			}
+			b, ok := balUp(c.P, st.Val).(*ssa.BinOp)
+			if !ok || b.Op != token.MUL {
+				return false
+			}
+			return (balIsParam(c.P, b.X, uw, 1) && balConstIs(b.Y, "100")) || (balIsParam(c.P, b.Y, uw, 1) && balConstIs(b.X, "100"))
+		}
+		bad := core.MustPass(uw, nil, core.LiftMust(install, 2))
 		c.Check("weight-installed", "BackendRR.UpdateWeight", uw.Pos(), bad == nil, "a path through UpdateWeight returns without storing the new weight (weight*100): a reload that changes a weight back to an earlier value would keep the stale weight and the shares would follow it")
 	}
 	// a pick that consumed credit is handed out: BalanceGslb.Balance never balances the same
@@ -177,121 +213,226 @@ func runC01(c *core.Ctx) {
 		c.Missing("bfe_balance/bal_gslb.BalanceGslb.Balance")
 	} else {
 		c.Analysed(core.FuncKey(gb))
-		calls := core.Calls(gb, "bfe_balance/bal_gslb.SubCluster.balance")
-		n := 0
+		// calls in Balance and in its private helpers, one instance per way Balance reaches them
+		calls := balCtxCalls(c.P, gb, balCallMatcher("bfe_balance/bal_gslb.SubCluster.balance"))
+		is := func(t ssa.Instruction) func(ssa.Instruction) bool {
+			return func(x ssa.Instruction) bool { return x == t }
+		}
+		sameChain := func(a, b balCtxCall) bool {
+			if len(a.Chain) != len(b.Chain) {
+				return false
+			}
+			for i := range a.Chain {
+				if a.Chain[i] != b.Chain[i] {
+					return false
+				}
+			}
+			return true
+		}
 		for i, a := range calls {
 			for j, b := range calls {
 				if i == j {
 					continue
 				}
-				if core.ReachAvoiding(gb, a.(ssa.Instruction), nil, func(x ssa.Instruction) bool { return x == b.(ssa.Instruction) }) == nil {
+				ai, bi := a.Call.(ssa.Instruction), b.Call.(ssa.Instruction)
+				var reach bool
+				switch {
+				case ai.Parent() == bi.Parent() && sameChain(a, b):
+					reach = core.ReachAvoiding(ai.Parent(), ai, nil, is(bi)) != nil
+				case a.RootInstr() != b.RootInstr():
+					reach = core.ReachAvoiding(gb, a.RootInstr(), nil, is(b.RootInstr())) != nil
+				default:
+					reach = true // different helpers entered by the same call: assume both run
+				}
+				if !reach {
 					continue
 				}
-				n++
-				same := core.StripConv(a.Common().Args[0]) == core.StripConv(b.Common().Args[0]) || core.Render(a.Common().Args[0]) == core.Render(b.Common().Args[0])
-				c.Check("single-pick", fmt.Sprintf("BalanceGslb.Balance:balance#%d->#%d", i, j), b.Pos(), !same, "one Balance call can balance the same sub-cluster twice: the first pick already moved the smooth-WRR credits and is thrown away, so the observed sequence drops selections")
+				a0, b0 := a.Arg(0), b.Arg(0)
+				same := a0 == b0 || balSameList(a0, b0)
+				c.Check("single-pick", fmt.Sprintf("BalanceGslb.Balance:balance#%d->#%d", i, j), b.Call.Pos(), !same, "one Balance call can balance the same sub-cluster twice: the first pick already moved the smooth-WRR credits and is thrown away, so the observed sequence drops selections")
 			}
 		}
 		for i, a := range calls {
-			loop := core.ReachAvoiding(gb, a.(ssa.Instruction), nil, func(x ssa.Instruction) bool { return x == a.(ssa.Instruction) }) != nil
-			c.Check("single-pick", fmt.Sprintf("BalanceGslb.Balance:balance#%d:once", i), a.Pos(), !loop, "SubCluster.balance is called in a loop inside one Balance call")
+			ai := a.Call.(ssa.Instruction)
+			loop := core.ReachAvoiding(ai.Parent(), ai, nil, is(ai)) != nil
+			if ri := a.RootInstr(); !loop && ri != ai {
+				loop = core.ReachAvoiding(gb, ri, nil, is(ri)) != nil
+			}
+			c.Check("single-pick", fmt.Sprintf("BalanceGslb.Balance:balance#%d:once", i), a.Call.Pos(), !loop, "SubCluster.balance is called in a loop inside one Balance call")
 		}
 		if len(calls) < 2 {
 			c.Check("single-pick", "BalanceGslb.Balance:sites", gb.Pos(), false, fmt.Sprintf("expected the in-cluster and the cross-cluster balance call, found %d", len(calls)))
 		}
 	}
 	// ---- (c) smoothBalance's updates ---------------------------------------------------------------
+	// All of this is decided on smoothBalance's region (the function, its private helpers, closures):
+	// the scan loop or the eligibility predicate may live in a helper.
 	c.Analysed(core.FuncKey(sb))
-	loops := core.Loops(sb)
-	inLoop := func(b *ssa.BasicBlock) bool {
-		for _, l := range loops {
-			if l.Body[b] {
+	reg := balRegion(c.P, sb)
+	inLoopCtx := func(in ssa.Instruction) bool {
+		for depth := 0; depth < 4; depth++ {
+			if balInLoop(in.Block()) {
 				return true
 			}
+			s := balSingleSite(c.P, in.Parent())
+			if s == nil {
+				return false
+			}
+			in = s.(ssa.Instruction)
 		}
 		return false
 	}
+	loadOf := func(v ssa.Value, fld string, elem ssa.Value) bool {
+		x := fieldLoadOf(v, fld)
+		return x != nil && (x == elem || balSameList(x, elem))
+	}
+	ec := &eligCtx{c: c, fnRet: map[*ssa.Function]int{}}
 	nIn, nOut := 0, 0
-	for _, st := range core.FieldStores([]*ssa.Function{sb}, cur) {
+	var debits []*ssa.Store
+	for _, st := range core.FieldStores(reg, cur) {
 		elem := st.Store.Addr.(*ssa.FieldAddr).X
 		b := st.Store.Block()
-		if inLoop(b) {
+		if inLoopCtx(st.Store) {
 			nIn++
-			a, p := eligibleByGuards(elem, core.GuardsAt(b))
-			add, isAdd := st.Store.Val.(*ssa.BinOp)
-			shape := isAdd && add.Op == token.ADD && fieldLoadOf(add.X, "current") != nil && sameElem(fieldLoadOf(add.X, "current"), elem) && fieldLoadOf(add.Y, "weight") != nil && sameElem(fieldLoadOf(add.Y, "weight"), elem)
+			a, p := balEligibleAt(c.P, elem, b)
+			add, isAdd := core.StripConv(st.Store.Val).(*ssa.BinOp)
+			shape := isAdd && add.Op == token.ADD && ((loadOf(add.X, "current", elem) && loadOf(add.Y, "weight", elem)) || (loadOf(add.Y, "current", elem) && loadOf(add.X, "weight", elem)))
 			c.Check("credit-update", fmt.Sprintf("smoothBalance:in-loop#%d", nIn), st.Store.Pos(), a && p && shape,
 				fmt.Sprintf("in-loop credit update must be `e.current += e.weight` for an element that passed Avail() && weight > 0 (avail=%v positive=%v shape=%v): ineligible backends must keep their credit untouched", a, p, shape))
 			continue
 		}
 		nOut++
+		debits = append(debits, st.Store)
 		// debit of the chosen element
-		sub, isSub := st.Store.Val.(*ssa.BinOp)
-		okShape := isSub && sub.Op == token.SUB && fieldLoadOf(sub.X, "current") != nil && sameElem(fieldLoadOf(sub.X, "current"), elem)
+		sub, isSub := core.StripConv(st.Store.Val).(*ssa.BinOp)
+		okShape := isSub && sub.Op == token.SUB && loadOf(sub.X, "current", elem)
 		okTotal := false
 		if okShape {
-			if phi, isPhi := sub.Y.(*ssa.Phi); isPhi {
-				okTotal = true
-				seen := map[ssa.Value]bool{}
-				var walk func(v ssa.Value)
-				walk = func(v ssa.Value) {
-					if seen[v] {
-						return
+			// the subtrahend, followed backwards through phis, helper results and helper parameters, is
+			// 0 plus the credits of elements that were eligible where they were added
+			okTotal = true
+			nAdd := 0
+			seen := map[ssa.Value]bool{}
+			var walk func(v ssa.Value, d int)
+			walk = func(v ssa.Value, d int) {
+				v = core.StripConv(v)
+				if seen[v] {
+					return
+				}
+				seen[v] = true
+				if d > 12 {
+					okTotal = false
+					return
+				}
+				switch x := v.(type) {
+				case *ssa.Phi:
+					for _, e := range x.Edges {
+						walk(e, d+1)
 					}
-					seen[v] = true
-					switch x := v.(type) {
-					case *ssa.Phi:
-						for _, e := range x.Edges {
-							walk(e)
-						}
-					case *ssa.Const:
-						if !isZero(x) {
-							okTotal = false
-						}
-					case *ssa.BinOp:
-						e := fieldLoadOf(x.Y, "current")
-						if x.Op != token.ADD || e == nil {
-							okTotal = false
-							return
-						}
-						if a, p := eligibleByGuards(e, core.GuardsAt(x.Block())); !a || !p {
-							okTotal = false
-						}
-						walk(x.X)
-					default:
+				case *ssa.Const:
+					if !isZero(x) {
 						okTotal = false
 					}
+				case *ssa.BinOp:
+					if x.Op != token.ADD {
+						okTotal = false
+						return
+					}
+					acc, term := x.X, x.Y
+					e := fieldLoadOf(term, "current")
+					if e == nil {
+						acc, term = x.Y, x.X
+						e = fieldLoadOf(term, "current")
+					}
+					if e == nil {
+						okTotal = false
+						return
+					}
+					nAdd++
+					if a, p := balEligibleAt(c.P, e, x.Block()); !a || !p {
+						okTotal = false
+					}
+					walk(acc, d+1)
+				case *ssa.Call, *ssa.Extract:
+					_, h, idx := balCallee(x)
+					if h == nil || !balInRegion(c.P, sb, h) {
+						okTotal = false
+						return
+					}
+					for _, r := range balResults(h, idx) {
+						walk(r, d+1)
+					}
+				case *ssa.Parameter:
+					if u := balUp(c.P, x); u != ssa.Value(x) {
+						walk(u, d+1)
+					} else {
+						okTotal = false
+					}
+				default:
+					okTotal = false
 				}
-				walk(phi)
+			}
+			walk(sub.Y, 0)
+			if nAdd == 0 {
+				okTotal = false
 			}
 		}
-		elig := (&eligCtx{c: c, fnRet: map[*ssa.Function]int{}}).elem(elem, core.GuardsAt(b), map[ssa.Value]bool{})
+		elig := ec.elem(elem, core.GuardsAt(b), map[ssa.Value]bool{})
 		c.Check("debit", fmt.Sprintf("smoothBalance:debit#%d", nOut), st.Store.Pos(), okShape && okTotal && elig,
 			fmt.Sprintf("after the scan only the chosen eligible element is debited, by the sum of the credits of exactly the eligible elements (shape=%v sum-over-eligible=%v chosen-eligible=%v)", okShape, okTotal, elig))
 	}
-	if nIn != 1 || nOut != 1 {
-		c.Check("credit-update", "smoothBalance:sites", sb.Pos(), false, fmt.Sprintf("expected one in-loop credit update and one debit, found %d and %d", nIn, nOut))
+	// at least one update site and one debit site; two debits must not lie on one path
+	twice := false
+	for i, a := range debits {
+		for j, b := range debits {
+			if i != j && a.Parent() == b.Parent() && core.ReachAvoiding(a.Parent(), a, nil, func(x ssa.Instruction) bool { return x == ssa.Instruction(b) }) != nil {
+				twice = true
+			}
+		}
 	}
-	// choice: strict greater-than on credits
+	if nIn < 1 || nOut < 1 || twice {
+		c.Check("credit-update", "smoothBalance:sites", sb.Pos(), false, fmt.Sprintf("expected an in-loop credit update and one debit per path, found %d and %d (two debits on one path: %v)", nIn, nOut, twice))
+	}
+	// choice: the running best is replaced by an element only when there is no best yet or the
+	// element's credit is strictly greater than the running maximum (ties keep the earlier element)
+	isBest := func(v ssa.Value) bool {
+		phi, ok := balUp(c.P, v).(*ssa.Phi)
+		return ok && strings.HasSuffix(core.TypeStr(phi.Type()), "bal_slb.BackendRR")
+	}
 	found := false
-	for _, in := range allInstrs(sb) {
-		b, ok := in.(*ssa.BinOp)
-		if !ok || fieldLoadOf(b.X, "current") == nil {
+	for _, in := range balRegionInstrs(c.P, sb) {
+		phi, ok := in.(*ssa.Phi)
+		if !ok || !isBest(phi) {
 			continue
 		}
-		if _, isPhi := b.Y.(*ssa.Phi); !isPhi {
-			continue
-		}
-		switch b.Op {
-		case token.GTR:
+		for i, e := range phi.Edges {
+			e = core.StripConv(e)
+			if isNilConst(e) {
+				continue
+			}
+			if _, isPhi := e.(*ssa.Phi); isPhi {
+				continue
+			}
+			if l, _ := balElemOfList(balUp(c.P, e)); l == nil {
+				continue // not a list element (e.g. a helper's result handed on)
+			}
 			found = true
-			c.Check("choice-strict", "smoothBalance:compare", in.Pos(), true, "")
-		case token.GEQ, token.LSS, token.LEQ:
-			found = true
-			c.Check("choice-strict", "smoothBalance:compare", in.Pos(), false, "the running maximum is compared with "+b.Op.String()+"; ties must keep the earlier element (strict >) or the order within a period changes")
+			pred := phi.Block().Preds[i]
+			elem := e
+			strict := balEdgeHolds(pred, phi.Block(), func(f balFact) bool {
+				if v, isNil, ok := balNilTest(f); ok && isNil && isBest(v) {
+					return true
+				}
+				if base, _, op, other, ok := balFieldCmp(f, "current"); ok && op == token.GTR && balSame(f, base, elem) {
+					_, isPhi := balUp(c.P, f.res(other)).(*ssa.Phi)
+					return isPhi
+				}
+				return false
+			})
+			c.Check("choice-strict", "smoothBalance:compare", pred.Instrs[len(pred.Instrs)-1].Pos(), strict, "the running best is replaced on a path that is neither `best == nil` nor `e.current > max` (strict): ties must keep the earlier element or the order within a period changes")
 		}
 	}
 	if !found {
-		c.Check("choice-strict", "smoothBalance:compare", sb.Pos(), false, "no comparison of an element's credit with the running maximum found")
+		c.Check("choice-strict", "smoothBalance:compare", sb.Pos(), false, "no assignment of a list element to the running best found")
 	}
 }
